@@ -562,17 +562,17 @@ def work(tier, seed, workdir, model):
         m["pysrc"] = os.path.join(wd, "py_" + m["name"] + ".py")
         open(m["src"], "w").write(m["pyx"])
         open(m["pysrc"], "w").write(m["py"])
-    # 1. translate: a few warmed compiler processes, each doing a slice of the modules
-    nproc = 3 if tier == "quick" else 6
-    slices = [mods[i::nproc] for i in range(nproc)]
+    # 1. translate: a few warmed compiler processes working through small chunks of modules; gcc starts on a chunk
+    #    as soon as it is translated
+    nproc, ncc, csize = (3, 4, 2) if tier == "quick" else (6, 8, 4)
+    chunks_t = [mods[i:i + csize] for i in range(0, len(mods), csize)]
 
-    def tr(i):
-        if not slices[i]:
-            return {}
-        r = cybuild.run_script(TRANSLATE, wd, stdin_obj=[[m["name"], m["src"]] for m in slices[i]], name="tr%d.py" % i,
+    def tr(ci):
+        ch = chunks_t[ci]
+        r = cybuild.run_script(TRANSLATE, wd, stdin_obj=[[m["name"], m["src"]] for m in ch], name="tr%d.py" % ci,
                                timeout=3000)
         return r["json"] if isinstance(r["json"], dict) else {m["name"]: {"ok": False, "err": "translate worker died: " + r["err"][-1500:]}
-                                                               for m in slices[i]}
+                                                               for m in ch}
 
     def one(m, res):
         m["translate"] = res.get(m["name"], {"ok": False, "err": "no result"})
@@ -586,13 +586,13 @@ def work(tier, seed, workdir, model):
         rc, err = cybuild.cc(c, os.path.join(wd, m["name"] + cybuild.EXT), ["-O0"])
         m["cc"] = None if rc == 0 else err[-1500:]
 
-    with cf.ThreadPoolExecutor(max_workers=nproc + (4 if tier == "quick" else 8)) as ex:
-        futs = {ex.submit(tr, i): i for i in range(nproc)}
+    with cf.ThreadPoolExecutor(max_workers=nproc) as ptr, cf.ThreadPoolExecutor(max_workers=ncc) as pcc:
+        futs = {ptr.submit(tr, ci): ci for ci in range(len(chunks_t))}
         ccf = []
         for fu in cf.as_completed(futs):
             res = fu.result()
-            for m in slices[futs[fu]]:
-                ccf.append(ex.submit(one, m, res))
+            for m in chunks_t[futs[fu]]:
+                ccf.append(pcc.submit(one, m, res))
         for fu in ccf:
             fu.result()
     run_readback(mods, wd)
